@@ -558,7 +558,11 @@ func runC18(cfg *vh.Config) error {
 				}
 				var hs []string
 				for i, s := range o.Sub {
-					hs = append(hs, fmt.Sprintf("(%s, %d)", descgen.Str(o.Names[i]), classN[s]))
+					same := i >= len(o.Same) || o.Same[i] != "diff"
+					if !same {
+						failK(scope.ofMessage(o.Names[i]), "C18 SchemaCache.Schema answer of a cache with a history is another schema than the fresh cache's (fresh ok, shared ok, schemas differ)", "the answer does not depend on earlier calls", fmt.Sprintf("order=%v at %s", o.Names, o.Names[i]))
+					}
+					hs = append(hs, fmt.Sprintf("(%s, %d, %v)", descgen.Str(o.Names[i]), classN[s], same))
 				}
 				terms = append(terms, "OHist ["+strings.Join(hs, "; ")+"]")
 			}
